@@ -1388,6 +1388,7 @@ def c_eval(case, stats=None):
         vt = None
         canv = None
         drawn_props = None  # (depth, bright_is_bold) in force at the previous draw
+        props_history = []  # ... at every draw so far
         pending = []
         props_since_palette = False  # did a set_terminal_properties call CHANGE something after the last registration?
 
@@ -1471,12 +1472,14 @@ def c_eval(case, stats=None):
                     if not data:
                         cnt("c_redraw_after_property_change_nothing_sent")
                 old_props, drawn_props = drawn_props, (depth, bib)
+                earlier = [p for p in props_history if p != (depth, bib)]
+                props_history.append((depth, bib))
                 cnt("c_draws")
                 cnt(f"c_draws_depth_{depth}")
                 cnt(f"c_draws_bright_is_bold_{bib}")
                 stage = "terminal-properties-changed-after-registration" if props_since_palette else "no-terminal-properties-change-after-registration"
                 if redraw:
-                    stage = "redraw-same-content-after-property-change" if changed else "redraw-same-content-no-property-change"
+                    stage = "redraw-same-content-after-property-change" if changed else ("redraw-same-content-property-changed-before-an-earlier-draw" if earlier else "redraw-same-content-no-property-change")
                 prev_exp = None
                 for y in range(len(rows)):
                     for x in range(ncols):
@@ -1529,9 +1532,16 @@ def c_eval(case, stats=None):
                                 exp_old = M.entry_expect(model[a][0], old_props[0])
                             if exp_old is not None and c_cell_ok(cell, exp_old, old_props[1]):
                                 cnt("c_redraw_cells_restyled")  # the decoded style really differs from the old one
+                        stale = False
+                        if bad and earlier:
+                            for od, ob in earlier:
+                                eo = exp if (isinstance(a, urwid.AttrSpec) or kind == "undefined-name") else M.entry_expect(model[a][0], od)
+                                if eo is not None and not c_cell_ok(cell, eo, ob):
+                                    stale = True
+                                    break
                         if bad:
-                            if exp_old is not None and not c_cell_ok(cell, exp_old, old_props[1]):
-                                how = "stale-style-of-previous-terminal-properties"
+                            if stale:
+                                how = "stale-style-of-earlier-terminal-properties"
                             elif not c_cell_ok(cell, DEFAULT_EXP, bib):
                                 how = "decodes-to-default"
                             elif prev_exp is not None and not c_cell_ok(cell, prev_exp, bib):
@@ -1552,6 +1562,8 @@ def c_eval(case, stats=None):
                             if how.startswith("wrong:"):
                                 how += f"|depth={depth}|bright_is_bold={bib}"
                             sig = f"C17|c|entry={kind}|{how}|{stage}"
+                            if stale:
+                                sig = f"C17|c|redraw-same-content|{how}|{stage}"
                             if how.startswith("high-colour-fields-used-at-88"):
                                 sig = "C17|c|88-colours|hN>15-not-first-in-spec|high-colour-fields-used-instead-of-16-colour-fields"
                             out.append((sig, f"cell ({x},{y}) attr {a!r} depth {depth}: decoded {cell.style()!r}, palette says fg in {sorted(map(repr, exp[0]))} bg in {sorted(map(repr, exp[1]))} flags {sorted(exp[2])}; output={data!r}"))
